@@ -90,6 +90,8 @@ impl Meta {
 pub struct AST {
     pub meta: Meta,
     pub compiler_version: Option<Version>,
+    /// The location of the version pragma.
+    pub compiler_version_meta: Option<Meta>,
     pub custom_gates: bool,
     pub custom_gates_declared: bool,
     pub includes: Vec<Include>,
@@ -99,18 +101,20 @@ pub struct AST {
 impl AST {
     pub fn new(
         meta: Meta,
-        compiler_version: Option<Version>,
+        compiler_version: Option<(Version, Meta)>,
         custom_gates: bool,
         includes: Vec<Include>,
         definitions: Vec<Definition>,
         main_component: Option<MainComponent>,
     ) -> AST {
+        let (compiler_version, compiler_version_meta) = compiler_version.unzip();
         let custom_gates_declared = definitions.iter().any(|definition| {
             matches!(definition, Definition::Template { is_custom_gate: true, .. })
         });
         AST {
             meta,
             compiler_version,
+            compiler_version_meta,
             custom_gates,
             custom_gates_declared,
             includes,
